@@ -194,10 +194,13 @@ pub fn guard<T>(what: &str, f: impl FnOnce() -> T) -> Result<T, Failure> {
             let loc = PANIC_LOC.with(|p| p.borrow_mut().take()).unwrap_or_else(|| "?".into());
             // a panic outside the library under test is a harness bug, never a violation
             // (the library is /repo, or a scratch copy named *-repo when mutants are tried)
-            let in_repo = loc.starts_with("/repo/") || loc.contains("repo/src/");
+            // the directory that holds `src/` is named `repo`, `mm-repo`, `mm-repo3`, ...
+            let src_at = loc.find("/src/");
+            let repo_dir = src_at.map(|i| loc[..i].rsplit('/').next().unwrap_or("").contains("repo")).unwrap_or(false);
+            let in_repo = loc.starts_with("/repo/") || repo_dir;
             // strip the repo prefix for stability
-            let short = match loc.find("repo/src/") {
-                Some(i) if in_repo => loc[i + 5..].to_string(),
+            let short = match src_at {
+                Some(i) if in_repo => loc[i + 1..].to_string(),
                 _ => loc.replace("/repo/", ""),
             };
             let site = short.split(' ').next().unwrap_or("?").to_string();
